@@ -25,12 +25,13 @@ class C05(Prop):
     level = "exploration"
     title = "Result caching is transparent"
     campaigns = {
-        "quick": [("main", 24000, 60), ("known:disjunction+for_all", 320, 30),
+        "quick": [("main", 24000, 60), ("large", 16, 120), ("known:disjunction+for_all", 320, 30),
                   ("known:disjunction+flatten", 320, 30), ("known:predicate_with_repeated_variable", 320, 30), ("known:disjunction_over_different_variables", 320, 30), ("known:disjunction_of_multi_variable_conjunction", 320, 30), ("rules", 3000, 40), ("known:rule_tree_with_alternative_or_next", 320, 40), ("known:kwargs_form_variable_in_multi_variable_query", 320, 30), ("known:falsy_operand", 600, 30)],
-        "thorough": [("main", 250000, 1500), ("known:disjunction+for_all", 4000, 300),
+        "thorough": [("main", 250000, 1500), ("large", 160, 900), ("known:disjunction+for_all", 4000, 300),
                      ("known:disjunction+flatten", 4000, 300), ("known:predicate_with_repeated_variable", 4000, 300), ("known:disjunction_over_different_variables", 20000, 300), ("known:disjunction_of_multi_variable_conjunction", 20000, 300), ("rules", 60000, 600), ("known:rule_tree_with_alternative_or_next", 6000, 400), ("known:kwargs_form_variable_in_multi_variable_query", 40000, 400), ("known:falsy_operand", 40000, 400)],
     }
     chunk = 40
+    chunk_of = {"large": 1}
     rule = ("seeded pools of 1-3 queries (joins, disjunctions over equal and different variable sets, negation, "
             "for_all, nested queries, predicates, kwargs-form variables) over shared variables; histories of complete "
             "evaluations (each query 1-3 times, interleaved across queries) and cache-knob flips; executed on three "
@@ -49,7 +50,41 @@ class C05(Prop):
                          "probe:cache_served:ElseIf.right", "probe:flip",
                          "probe:judged_count", "probe:cache_served_from_index_with_wildcard_level"]}
 
+    def _gen_large(self, rng, tier):
+        """Scale dimension: worlds of ~100 objects and cross joins that deliver > 10 000 rows, so that size
+        thresholds inside the caches (eviction, resizing) are crossed."""
+        n = rng.choice([101, 104, 110])
+        vals = [1, 2, 3, 4]
+        labels = [f"I{i}" for i in range(n)]
+        objects = [{"l": l, "t": "Item", "f": {"a": rng.choice(vals), "b": rng.choice(vals), "c": rng.choice(vals),
+                                              "tags": [rng.choice(vals)], "peer": rng.choice(labels),
+                                              "kids": [rng.choice(labels)]}} for l in labels]
+        world = {"objects": objects, "domains": {"d0": list(labels), "d1": list(labels), "d2": labels[:2]},
+                 "vals": vals}
+        shape = rng.choice(["join", "join+independent"])
+        vars_ = [{"n": "x", "t": "Item", "dom": "d0", "kind": "list", "form": "let"},
+                 {"n": "y", "t": "Item", "dom": "d1", "kind": "list", "form": "let"}]
+        # a join condition that (almost) every pair satisfies: > 10 000 bindings recorded by one comparator
+        join = rng.choice([["cmp", ["attr", ["v", "x"], "a"], "<=", ["call", ["v", "y"], "m1", [4]]],
+                           ["cmp", ["attr", ["v", "x"], "a"], "!=", ["call", ["v", "y"], "m1", [9]]],
+                           ["cmp", ["call", ["v", "x"], "m1", [5]], ">", ["attr", ["v", "y"], "c"]]])
+        conds = [join]
+        if rng.random() < 0.4:
+            conds.append(["cmp", ["attr", ["v", "y"], "c"], "<=", ["lit", 5]])
+        sel = ["x", "y"]
+        if shape == "join+independent":
+            vars_.append({"n": "z", "t": "Item", "dom": "d2", "kind": "list", "form": "let"})
+            conds.append(["cmp", ["attr", ["v", "z"], "a"], "<=", ["lit", 5]])
+            sel = ["x", "y", "z"]
+        pool = {"vars": vars_, "queries": [{"id": "q0", "quant": "an", "shape": "set_of", "sel": sel, "conds": conds}]}
+        ops = [["full", "q0"], ["full", "q0"]]
+        if rng.random() < 0.3:
+            ops.insert(1, ["flip"])
+        return {"world": world, "pool": pool, "ops": ops, "cfg": {"large": True}}
+
     def gen(self, rng, tier, campaign):
+        if campaign == "large":
+            return self._gen_large(rng, tier)
         force = {}
         r = rng.random()
         if r < 0.35:
